@@ -24,7 +24,7 @@ RULE = ('one idling session + 1-2 writer sessions issuing bursts of APPEND / STO
         'landed while the idler was parked in the middle of a notification; distinct by script')
 
 
-async def idle_case(part, m, r, script, backend='dict', end='DONE'):
+async def idle_case(part, m, r, script, backend='dict', end='DONE', race=None):
     """script: list of ['mut', session, op...] | ['release'] ; ops: append flags | store uidpos mode flags | expunge uidpos | move uidpos"""
     from pymap.imap import IMAPServer
     from .common.sched import Sched
@@ -38,7 +38,7 @@ async def idle_case(part, m, r, script, backend='dict', end='DONE'):
         base = backends.scratch_dir()
         config, login = await backends.make_maildir(base, users=[('u', 'p', ())], bad_command_limit=None)
     srv = IMAPServer(login, config)
-    case = dict(backend=backend, script=script, end=end)
+    case = dict(backend=backend, script=script, end=end, race=race)
     try:
         a = wire.Client(srv, fd=10, sched=sched, name='idler')
         await a.start()
@@ -202,6 +202,45 @@ async def idle_case(part, m, r, script, backend='dict', end='DONE'):
             part.violation('correspondence', f'Idle model says delivered={model_delivered} (state {mstate}), the real idler delivered={delivered} (script {script})', case,
                            signature='idle-model')
         # end of IDLE
+        if race is not None:
+            # DONE races with one more change: whatever the server took note of while it stopped idling must still reach the client —
+            # the sequence numbers of the commands that follow are already based on it
+            order, gap, wi, kind = race
+            body = l3.msg_bytes(cid)
+            mut = (b'w APPEND INBOX {%d+}\r\n' % len(body) + body + b'\r\n') if kind == 'append' or not uids else \
+                (b'w UID MOVE %d other\r\n' % uids[0] if kind == 'move' else b'w UID STORE %d +FLAGS (\\Flagged)\r\n' % uids[-1])
+            if order == 'done-first':
+                a.feed(b'DONE\r\n')
+                for _ in range(gap):
+                    await asyncio.sleep(0)
+                writers[wi].feed(mut)
+            else:
+                writers[wi].feed(mut)
+                for _ in range(gap):
+                    await asyncio.sleep(0)
+                a.feed(b'DONE\r\n')
+            await writers[wi].settle()
+            writers[wi].take()
+            raw = await a.settle()
+            stream += raw if isinstance(raw, (bytes, bytearray)) else b''
+            stream += a.take()
+            if b'i OK' not in stream:
+                part.violation('monitor', f'IDLE ended by DONE racing with a change ({race}): no tagged OK: {stream[-120:]!r}', case, signature='idle-done')
+            feed_shadow()
+            for line in (b'n NOOP\r\n', b'f FETCH 1:* (UID FLAGS)\r\n'):
+                out2 = await a.send(line)
+                out2 = (out2 if isinstance(out2, (bytes, bytearray)) else b'') + a.take()
+                try:
+                    _, _, items2 = l3.canon_real(out2)
+                    sh.apply(items2, ['fetch', 0, False, '1:*', ['UID', 'FLAGS']] if line.startswith(b'f') else ['noop', 0], False)
+                except imapresp.Malformed as exc:
+                    part.violation('monitor', f'malformed answer after IDLE: {exc}', case, signature='idle-malformed')
+            for e in sh.errors:
+                part.violation('monitor', f'sequence-number rules broken after DONE raced with a change ({race}): {e} (script {case["script"]})', case, signature='idle-race')
+            await a.eof()
+            for w in writers:
+                await w.eof()
+            return
         raw = await a.send(end.encode() + b'\r\n')
         if backend != 'dict' and not imapresp.tagged_safe(raw, b'i'):
             await asyncio.sleep(1.2)
@@ -269,8 +308,11 @@ def worker(job):
             end = 'DONE' if k % 4 else r.choice(['done', 'DONE', 'junk', 'DONE x', ''])
             if end == '':
                 end = 'x'
-            with guarded(part, 'C16 idle', dict(script=sc)):
-                asyncio.run(idle_case(part, m, r, sc, 'dict', end))
+            race = None
+            if k % 3 == 2:
+                race = [r.choice(['done-first', 'mut-first']), r.choice([0, 0, 1, 2, 3]), r.randrange(2), r.choice(['append', 'append', 'move', 'store'])]
+            with guarded(part, 'C16 idle', dict(script=sc, race=race)):
+                asyncio.run(idle_case(part, m, r, sc, 'dict', end, race))
         for k in range(maildir):
             sc = [s for s in gen_script(r) if s[0] == 'release' or s[2] in ('append', 'store')][:5] or [['mut', 0, 'append', []]]
             with guarded(part, 'C16 idle maildir', dict(script=sc, backend='maildir')):
@@ -293,7 +335,7 @@ def replay(case):
     from . import c05       # noqa
     part = Part()
     m = Model()
-    asyncio.run(idle_case(part, m, random.Random(1), case['script'], case.get('backend', 'dict'), case.get('end', 'DONE')))
+    asyncio.run(idle_case(part, m, random.Random(1), case['script'], case.get('backend', 'dict'), case.get('end', 'DONE'), case.get('race')))
     m.close()
     res = part.result()
     for v in res['violations']:
